@@ -65,12 +65,16 @@ class _Mapped(object):
 
 
 def _exc(e):
-    msg = str(e)
-    # keep only the innermost reason (after the 'Failed decoding result column "x" of type T: ' prefix),
-    # without digits, so that it can serve as a structural feature of a finding key; never compared
-    if ": " in msg:
-        msg = msg.rsplit(": ", 1)[1]
-    msg = "".join("#" if c.isdigit() else c for c in msg)[:60]
+    """["exc", class name, structural reason]: the reason is only ever used as a feature of a finding key"""
+    msg = ""
+    if not isinstance(e, (KeyError, IndexError, AttributeError)):      # their messages are data, not structure
+        msg = str(e)
+        # keep only the innermost reason (after the 'Failed decoding result column "x" of type T: ' prefix)
+        if ": " in msg:
+            msg = msg.rsplit(": ", 1)[1]
+        import re
+        msg = re.sub(r"'[^']*'|\"[^\"]*\"|[^A-Za-z ]", " ", msg)
+        msg = " ".join(msg.split()[:6])[:48]
     return ["exc", type(e).__name__, msg]
 
 
@@ -232,10 +236,10 @@ def ev_value(req):
 
 
 def _scalar(x):
-    """operands of the container scripts: ints, strs, [tuple...] and ["b", hex]"""
+    """operands of the container scripts: ints, strs, lists (-> tuples) and {"hex": ...} (-> bytes)"""
+    if isinstance(x, dict):
+        return bytes.fromhex(x["hex"])
     if isinstance(x, list):
-        if len(x) == 2 and x[0] == "b":
-            return bytes.fromhex(x[1])
         return tuple(_scalar(y) for y in x)
     return x
 
@@ -280,9 +284,9 @@ def ev_util(req):
     elif op == "version":
         def run():
             a, b = util.Version(req["a"]), util.Version(req["b"])
-            return [str(a), repr(a), a == b, a < b, a > b, a <= b, hash(a) == hash(util.Version(req["a"])),
-                    a.major, a.minor, a.patch, a.build, a.prerelease]
+            return [str(a), repr(a), a == b, a < b, a > b, a <= b, a.major, a.minor, a.patch, a.build, a.prerelease]
         out["version"] = _guard(run)
+        out["version_hash"] = _guard(lambda: hash(util.Version(req["a"])) == hash(util.Version(req["a"])))
     elif op == "sset":
         trace = []
         try:
@@ -386,7 +390,8 @@ def _build_message(d):
     elif k == "batch":
         qs = [((q[0], bytes.fromhex(q[1])) if q[0] else (q[0], q[1]), params(q[2])) for q in d["queries"]]
         qs = [(a[0], a[1], b) for a, b in qs]
-        m = P.BatchMessage(d["btype"], qs, d["cl"], d.get("serial"), d.get("ts"), d.get("ks"))
+        from cassandra.query import BatchType
+        m = P.BatchMessage(getattr(BatchType, d["btype"]), qs, d["cl"], d.get("serial"), d.get("ts"), d.get("ks"))
     elif k == "prepare":
         m = P.PrepareMessage(d["query"], d.get("ks"))
     elif k == "startup":
@@ -616,7 +621,7 @@ def _show(x, n=300):
     return s if len(s) <= n else s[:n] + "..."
 
 
-def differential(ctx, sub, mode, req, pairs, describe=None):
+def differential(ctx, sub, mode, req, pairs, describe=None, group=None, group_name="cython"):
     """Evaluate req on both trees; `pairs` maps a compiled-side result name to the pure-side name it must equal.
     `describe(path, name)` may return extra key features (e.g. the column type).  Returns the pure result."""
     mine = evaluate(req)
@@ -626,6 +631,7 @@ def differential(ctx, sub, mode, req, pairs, describe=None):
         ctx.fail([sub, "worker-died", "rc=%s" % e.rc],
                  "the compiled tree killed its process on this request (rc=%s)" % e.rc)
         return mine
+    found = []
     for cname, pname in pairs:
         if cname not in theirs and pname not in mine:
             continue
@@ -634,9 +640,20 @@ def differential(ctx, sub, mode, req, pairs, describe=None):
             continue
         path, na, nb = d
         extra = describe(path, cname) if describe else []
-        key = [sub + ("." + cname if len(pairs) > 1 else "")] + list(extra) + _feature(na, nb)
-        ctx.fail(key, "pure[%s] != compiled[%s] at %s: pure %s, compiled %s" % (
-            pname, cname, "/".join(map(str, path)), _show(na), _show(nb)))
+        found.append((cname, pname, list(extra) + _feature(na, nb), path, na, nb))
+    # the two Cython row parsers share the deserializers: one root cause, one finding
+    for cname, pname, feat, path, na, nb in found:
+        names = [c for c, _p, f, _a, _b, _c in found if f == feat]
+        if names[0] != cname:
+            continue
+        if len(pairs) == 1:
+            subname = sub
+        elif set(names) >= set(group or ()) and cname in (group or ()):
+            subname = sub + "." + group_name
+        else:
+            subname = sub + "." + cname
+        ctx.fail([subname] + feat, "pure[%s] != compiled[%s] at %s: pure %s, compiled %s" % (
+            pname, "+".join(names), "/".join(map(str, path)), _show(na), _show(nb)))
     return mine
 
 
@@ -648,8 +665,8 @@ def s_murmur3():
     from hypothesis import strategies as st
     special = st.sampled_from([0x00, 0x01, 0x7f, 0x80, 0xff])
     byte = st.one_of(special, st.integers(0, 255), st.integers(128, 255))
-    length = st.one_of(st.integers(0, 80), st.integers(0, 80),
-                       st.sampled_from([127, 128, 129, 255, 256, 1023, 4095, 4096]), st.integers(81, 600))
+    length = st.one_of(st.integers(0, 80), st.integers(0, 80), st.integers(0, 80), st.integers(81, 300),
+                       st.sampled_from([127, 128, 129, 255, 256, 1023, 4095, 4096]))
 
     @st.composite
     def key(draw):
@@ -750,7 +767,7 @@ def s_rows(max_depth=3):
                          "table": "t" if same_table else draw(st.sampled_from(["t", "t2"])),
                          "name": draw(names) + (str(i) if draw(st.booleans()) else ""),
                          "tree": draw(trees)})
-        nrows = draw(st.sampled_from([0, 1, 1, 2, 3, 5]))
+        nrows = draw(st.sampled_from([0, 1, 1, 2, 2, 3, 5, 5]))
         rows = []
         for _ in range(nrows):
             row = []
@@ -890,7 +907,8 @@ def interpret_rows(case, ctx):
         return feats
 
     mode = _mode()
-    mine = differential(ctx, "C07.rows", mode, req, [("plain", "plain"), ("list", "plain"), ("lazy", "plain")], describe)
+    mine = differential(ctx, "C07.rows", mode, req, [("plain", "plain"), ("list", "plain"), ("lazy", "plain")], describe,
+                        group=("list", "lazy"))
     if _is_tagged(mine.get("plain")) and mine["plain"][0] == "exc":
         ctx.label("rows:pure-raises:" + mine["plain"][1])
     composite = seen & {"list", "set", "map", "tuple", "udt", "vector"}
@@ -964,7 +982,8 @@ def s_util():
     uu = st.builds(lambda t, n, c: {"op2": "uuid", "t": t, "node": n, "clock": c},
                    st.one_of(st.integers(0, 2 ** 33), st.floats(0, 1e10, allow_nan=False),
                              st.sampled_from([0, 1, 0.001, 1e-7, 12219292800, -12219292800, -1])),
-                   st.sampled_from([None, 0, 1, 2 ** 48 - 1, 2 ** 48]), st.sampled_from([None, 0, 1, 0x3fff, 0x4000]))
+                   # (node / clock_seq None would make the driver draw random ones: not a function of the case)
+                   st.sampled_from([0, 1, 0x0123456789ab, 2 ** 48 - 1, 2 ** 48]), st.sampled_from([0, 1, 0x3fff, 0x4000]))
     dur = st.builds(lambda m, d, n: {"op2": "duration", "arg": [m, d, n]},
                     st.integers(-2 ** 31, 2 ** 31 - 1) | st.sampled_from([0, 1, -1, 12, 13]),
                     st.integers(-2 ** 31, 2 ** 31 - 1) | st.sampled_from([0, 1, -1]),
@@ -977,7 +996,7 @@ def s_util():
     el_int = st.integers(-3, 6)
     el_str = st.sampled_from(["", "a", "b", "ab", "B", "é", "z"])
     el_tup = st.tuples(st.integers(0, 2), st.sampled_from(["a", "b"])).map(list)
-    el_b = st.sampled_from(["", "00", "ff", "7f80"]).map(lambda h: ["b", h])
+    el_b = st.sampled_from(["", "00", "ff", "7f80"]).map(lambda h: {"hex": h})
 
     def sset_for(el):
         coll = st.lists(el, max_size=5)
@@ -1005,13 +1024,17 @@ def s_util():
                          pairs, st.lists(step, min_size=1, max_size=8))
     omap = st.one_of(omap_for(el_int, el_str), omap_for(el_tup, el_int), omap_for(el_b, el_int),
                      omap_for(st.lists(el_int, max_size=2).map(lambda x: x), el_str))
-    return st.one_of(dft, dft, ms, date, time, uu, dur, version, sset, sset, omap)
+    kinds = {"dft": dft, "ms": ms, "date": date, "time": time, "uuid": uu, "duration": dur, "version": version,
+             "sset": sset, "omap": omap}
+    return st.sampled_from(["dft", "dft", "dft", "ms", "date", "date", "time", "time", "uuid", "duration", "version",
+                            "sset", "sset", "sset", "omap", "omap"]).flatmap(lambda k: kinds[k])
 
 
 def interpret_util(case, ctx):
     req = dict(case, op="util")
     differential(ctx, "C07.util", "full", req,
-                 [(k, k) for k in ("dt", "utc", "ms", "date", "time", "uuid", "dur", "version", "init", "trace", "glue")],
+                 [(k, k) for k in ("dt", "utc", "ms", "date", "time", "uuid", "dur", "version", "version_hash", "init", "trace",
+                                  "glue")],
                  lambda path, name: [case["op2"]])
     ctx.label("util:" + case["op2"])
     ctx.nontrivial(True)
@@ -1036,7 +1059,7 @@ def s_encode():
                                    ts=ts, ks=ks, params=params, cpo=cpo))
     e = st.fixed_dictionaries(dict(common, kind=st.just("execute"), id=hexs, cl=cl, serial=serial, fetch=fetch, paging=paging,
                                    ts=ts, params=st.lists(param, max_size=4), cpo=cpo, skip_meta=st.booleans(),
-                                   rmid=st.sampled_from([None, "", "abcd"])))
+                                   rmid=st.sampled_from(["", "abcd"])))
     bq = st.one_of(st.tuples(st.just(True), hexs, st.lists(param, max_size=3)).map(list),
                    st.tuples(st.just(False), text, st.lists(param, max_size=3)).map(list))
     b = st.fixed_dictionaries(dict(common, kind=st.just("batch"), btype=st.sampled_from(["LOGGED", "UNLOGGED", "COUNTER"]),
@@ -1048,7 +1071,7 @@ def s_encode():
     r = st.fixed_dictionaries(dict(common, kind=st.just("register"),
                                    events=st.lists(st.sampled_from(["TOPOLOGY_CHANGE", "STATUS_CHANGE", "SCHEMA_CHANGE"]), max_size=3)))
     o = st.fixed_dictionaries(dict(common, kind=st.just("options")))
-    a = st.fixed_dictionaries(dict(common, kind=st.just("auth"), token=st.sampled_from([None, "", "00706173"])))
+    a = st.fixed_dictionaries(dict(common, kind=st.just("auth"), token=st.sampled_from(["", "00706173"])))
     c = st.fixed_dictionaries(dict(common, kind=st.just("credentials"),
                                    creds=st.sampled_from([[], [["username", "u"], ["password", "p"]]])))
     rv = st.fixed_dictionaries(dict(common, kind=st.just("revise"), optype=st.sampled_from([1, 2, 3]),
@@ -1097,14 +1120,14 @@ def parts(tier):
         from build import cybuild
         cybuild.ensure("pyx" if tier == "quick" else "full")
     ps = [
-        hyp_part("murmur3", s_murmur3, _with_mode("pyx", interpret_murmur3), tier, quick=500, thorough=4000,
-                 quick_shards=4, thorough_shards=4),
-        hyp_part("rows", s_rows, _with_mode("pyx", interpret_rows), tier, quick=260, thorough=2500,
-                 quick_shards=8, thorough_shards=8),
+        hyp_part("murmur3", s_murmur3, _with_mode("pyx", interpret_murmur3), tier, quick=350, thorough=4000,
+                 quick_shards=3, thorough_shards=4),
+        hyp_part("rows", s_rows, _with_mode("pyx", interpret_rows), tier, quick=600, thorough=4000,
+                 quick_shards=5, thorough_shards=8),
     ]
     if tier == "thorough":
         ps += [
-            hyp_part("rows-full", s_rows, _with_mode("full", interpret_rows), tier, quick=0, thorough=2500, thorough_shards=8),
+            hyp_part("rows-full", s_rows, _with_mode("full", interpret_rows), tier, quick=0, thorough=4000, thorough_shards=8),
             hyp_part("murmur3-full", s_murmur3, _with_mode("full", interpret_murmur3), tier, quick=0, thorough=2000,
                      thorough_shards=2),
             hyp_part("values", s_values, interpret_values, tier, quick=0, thorough=3000, thorough_shards=12),
